@@ -462,7 +462,9 @@ def failing_variant(rng, cfg):
     bad = rng.choice(SYNTAX_ERR + UNSUPPORTED)
     if rng.random() < 0.35:
         bad = long_bad(rng, bad)
-    kind = rng.choice(['bad_pattern', 'bad_lookahead', 'bad_extra_mode', 'bad_extra_mode', 'bad_first_mode'])
+    kind = rng.choice(['bad_pattern', 'bad_lookahead', 'bad_lookahead', 'bad_extra_mode', 'bad_extra_mode', 'bad_first_mode'])
+    if kind == 'bad_lookahead' and rng.random() < 0.7 and not bad.startswith(tuple(UNSUPPORTED)):
+        bad = rng.choice(UNSUPPORTED)            # an unsupported construct is detected later than a syntax error
     if kind == 'bad_pattern':
         rng.choice(rng.choice(c)['patterns'])['p'] = bad
     elif kind == 'bad_lookahead':
@@ -606,6 +608,23 @@ def fixed_histories():
                            ('failing:bad_extra_mode', bad_uns), ('variant:mode_count', two), ('failing:bad_extra_mode', bad_uns),
                            ('failing:bad_lookahead', bad_la), ('base', base), ('failing:bad_lookahead', bad_la),
                            ('variant:transition', two_tr), ('variant:mode_count', two), ('failing:bad_extra_mode', bad_tail)])
+    # every way a build can FAIL (syntax error / unsupported construct; in a pattern, in a positive and in a negative
+    # lookahead, in the first and in a later mode), each followed by good builds (hit and miss) and repeated; and
+    # configurations at the edge of the id types (token types >= 2^32 are truncated alike by both build paths: D9)
+    fails = []
+    for bad in ['a(', '[z-a]', '^x', '\\bfoo', 'a*?', '(?i)a', '\\p{Greek}', 'a$']:
+        fails.append([M('M', [P('a', 1), P(bad, 2)], [])])
+        fails.append([M('M', [P('a', 1, (True, bad)), P('c', 2)], [[1, 0]])])
+        fails.append([M('M', [P('[0-9]+', 1, (False, bad))], [])])
+        fails.append(base + [M('LATE', [P('q', 5, (True, bad))], [])])
+    seq = [('base', base)]
+    for k, f in enumerate(fails):
+        seq += [('failing:bad_any', f), ('base', base) if k % 2 else ('variant:mode_count', two)]
+        if k % 5 == 4:
+            seq.append(('failing:bad_any', f))
+    wide = [M('W', [P('a', 4294967296 + 6), P('b', 3)], [])]
+    seq += [('base', wide), ('base', base), ('variant:mode_count', two), ('base', wide)]
+    hist('fixed_every_failure', seq)
     # a long history of many distinct tiny configurations with early ones rebuilt again and again
     # (a cache that forgets, evicts or re-uses entries must still be transparent)
     def tiny(i):
